@@ -13,16 +13,140 @@
 // orientation (the earlier state's) does not exceed the earlier HPWL.  Anything else is a violation.
 //
 // Correspondence: `hpwl0` lines tie the model's Circuit.hpwl to Circuit::hpwl() on every exposed
-// placement; with hook H3 compiled in, the optimiser's move history is replayed on the DetPlace model
-// and the HPWL of the model's export is compared at every callback and on return.
+// placement; with hook H3 compiled in, the optimiser's move history is replayed on the model of the
+// whole DetailedPlacer object (placement + the two IncrNetModels, Model/DetIncr.lean) and at every
+// replayed step the model's incrementally maintained value, the from-scratch HPWL of its export and
+// the "no orientation changed since construction" flag are compared with DetailedPlacer::value(),
+// Circuit::hpwl() of the real export and the real flag (`val` / `hp` lines), in addition to the HPWL
+// observed through Circuit::placeDetailed at every callback and on return (`hpwl` lines).
+//
+// The real values at every step come from a second, *direct* run of the body of DetailedPlacer::place
+// (legalize; construct; run with the callback; check) on the same input, which gives the hook access
+// to the DetailedPlacer object; its move log must be the one of the Circuit::placeDetailed run.
+//
+// Second oracle (the classifier boundary of KF-C05-1 seen from the objective): whenever no cell has
+// another orientation than at construction, DetailedPlacer::value() must equal Circuit::hpwl() of the
+// export — at every callback and at every primitive move; and no logged shift may increase value()
+// (the NetworkSimplex-optimality assumption of `Accepted.shift`).
 #include <algorithm>
 #include <climits>
 
 #include "common/circuit.hpp"
 #include "common/harness.hpp"
+// the direct run reads placement_ / sets callback_ the way DetailedPlacer::place does
+#define private public
+#include "place_detailed/place_detailed.hpp"
+#undef private
 #include "detailed_common.hpp"
 
 using namespace coloquinte;
+
+// ------------------------------------------------------------------ the direct run
+
+struct DirectRun {
+  std::string status;              // ok | throw:… | abort | … | nohook
+  std::vector<std::string> log;    // op lines, "cb", "val V H K", "hp H K"
+};
+
+#ifdef COLOQUINTE_VERIF_DETAILED_OPLOG
+namespace direct {
+static DetailedPlacer *placer = nullptr;
+static Circuit *circuit = nullptr;
+static std::vector<int> orient0;
+static std::vector<std::string> *log = nullptr;
+
+static std::string state(bool withValue) {
+  Circuit tmp = *circuit;
+  tmp.isInUse_ = false;
+  placer->placement_.exportPlacement(tmp);
+  bool kept = true;
+  for (int i = 0; i < tmp.nbCells(); ++i)
+    if ((int)tmp.cellOrientation_[i] != orient0[i]) kept = false;
+  std::ostringstream os;
+  if (withValue) os << "val " << placer->value() << " ";
+  else os << "hp ";
+  os << tmp.hpwl() << " " << (kept ? 1 : 0);
+  return os.str();
+}
+
+static void hook(const char *kind, const int *args, int n) {
+  if (!log || !placer) return;
+  std::ostringstream os;
+  os << kind;
+  for (int i = 0; i < n; ++i) os << " " << args[i];
+  std::string k = kind;
+  // swap / insert / reorder are announced before the move, shift after it
+  if (k == "h_swap" || k == "h_insert") log->push_back(state(true));
+  else if (k == "h_reorder") log->push_back(state(false));  // the two models are mid-enumeration here
+  log->push_back(os.str());
+  if (k == "h_shift") log->push_back(state(true));
+}
+}  // namespace direct
+#endif
+
+static DirectRun directRun(const Circuit &input, const vd::Params &prm, int timeoutSec = 120) {
+  DirectRun r;
+#ifdef COLOQUINTE_VERIF_DETAILED_OPLOG
+  std::string txt, diag;
+  std::string st = vh::isolated(
+      [&](std::ostream &os) {
+        vd::silenceStdout();
+        Circuit c = input;
+        std::vector<std::string> log;
+        direct::log = &log;
+        direct::circuit = &c;
+        coloquinte::verif::onDetailedOp = &direct::hook;
+        PlacementCallback cb = [&](PlacementStep s) {
+          if (s != PlacementStep::Detailed) return;
+          log.push_back("cb");
+          if (direct::placer) {
+            std::ostringstream v;
+            bool kept = true;
+            for (int i = 0; i < c.nbCells(); ++i)
+              if ((int)c.cellOrientation_[i] != direct::orient0[i]) kept = false;
+            // here the circuit *is* the export (DetailedPlacer::callback exported it)
+            v << "val " << direct::placer->value() << " " << c.hpwl() << " " << (kept ? 1 : 0);
+            log.push_back(v.str());
+          }
+        };
+        std::string status = "ok";
+        try {
+          // the body of DetailedPlacer::place
+          DetailedPlacer::legalize(c, prm.p, cb);
+          prm.p.check();
+          DetailedPlacer pl(c, prm.p);
+          direct::orient0.clear();
+          for (auto o : c.cellOrientation_) direct::orient0.push_back((int)o);
+          direct::placer = &pl;
+          log.push_back(direct::state(true));
+          pl.callback_ = cb;
+          pl.check();
+          pl.run();
+          pl.check();
+          log.push_back(direct::state(true));
+          direct::placer = nullptr;
+          pl.exportPlacement(c);
+        } catch (const std::exception &e) {
+          status = vc::exClass(e);
+        }
+        os << "status " << status << "\n";
+        for (auto &l : log) os << "log " << l << "\n";
+      },
+      txt, timeoutSec, &diag);
+  r.status = st;
+  if (st != "ok") return r;
+  std::istringstream is(txt);
+  std::string line;
+  while (std::getline(is, line)) {
+    if (line.rfind("status ", 0) == 0) r.status = line.substr(7);
+    else if (line.rfind("log ", 0) == 0) r.log.push_back(line.substr(4));
+  }
+#else
+  (void)input; (void)prm; (void)timeoutSec;
+  r.status = "nohook";
+#endif
+  return r;
+}
 
 struct Runner {
   vh::Out &out;
@@ -99,18 +223,69 @@ struct Runner {
     out.impl << "case " << id << "\n";
     if (r.hasHook) {
       out.count("replayed_histories");
+      // the direct run gives the real value() / hpwl() / orientation flag at every step; its move log
+      // must be the one of the Circuit::placeDetailed run
+      DirectRun d = directRun(input, prm);
+      std::vector<std::string> movesOnly;
+      for (const std::string &l : d.log)
+        if (l.rfind("val ", 0) != 0 && l.rfind("hp ", 0) != 0) movesOnly.push_back(l);
+      bool useDirect = d.status == "ok" && movesOnly == r.oplog;
+      out.count(useDirect ? "direct_run_same_history" : "direct_run_unusable_" + d.status);
+      if (!useDirect && d.status == "ok")
+        out.fail(id, "the move history of the body of DetailedPlacer::place differs from the one of Circuit::placeDetailed on the same input", inp);
+      const std::vector<std::string> &lg = useDirect ? d.log : r.oplog;
       vc::dumpCircuit(out.ops, vd::withSnap(input, *st[0]));
       out.ops << "init\nhpwl\n";
       out.impl << "init ok\nhpwl " << h[0] << "\n";
       size_t cb = 0;
-      for (const std::string &l : r.oplog) {
+      bool haveLast = false, valueFailed = false;
+      long long lastV = 0;
+      bool lastWasShift = false;
+      for (const std::string &l : lg) {
         if (l == "cb") {
-          if (cb > 0) {
+          if (cb > 0 && cb < h.size()) {
             out.ops << "hpwl\n";
             out.impl << "hpwl " << h[cb] << "\n";
           }
           ++cb;
-        } else out.ops << l << "\n";
+          lastWasShift = false;
+        } else if (l.rfind("val ", 0) == 0 || l.rfind("hp ", 0) == 0) {
+          bool isVal = l[0] == 'v';
+          out.ops << (isVal ? "val" : "hp") << "\n";
+          out.impl << l << "\n";
+          if (!isVal) continue;
+          long long V, H;
+          int K;
+          std::istringstream ls(l.substr(4));
+          ls >> V >> H >> K;
+          out.count("value_samples");
+          if (K) {
+            out.count("value_samples_orient_kept");
+            if (V != H) {
+              out.count("violation_value_ne_hpwl");
+              if (!valueFailed)
+                out.fail(id, "DetailedPlacer::value() = " + std::to_string(V) + " differs from Circuit::hpwl() = " + std::to_string(H) +
+                                 " of the exported placement although no cell's orientation changed since construction", inp);
+              valueFailed = true;
+            }
+          } else if (V != H) out.count("value_ne_hpwl_after_orientation_change");
+          if (lastWasShift) {
+            out.count("shift_samples");
+            if (haveLast && V > lastV) {
+              out.count("violation_shift_increases_value");
+              if (!valueFailed)
+                out.fail(id, "a shift pass wrote positions that increase DetailedPlacer::value() from " + std::to_string(lastV) + " to " +
+                                 std::to_string(V) + " (NetworkSimplex optimality assumption)", inp);
+              valueFailed = true;
+            }
+          }
+          lastV = V;
+          haveLast = true;
+          lastWasShift = false;
+        } else {
+          out.ops << l << "\n";
+          lastWasShift = l.rfind("h_shift", 0) == 0;
+        }
       }
       out.ops << "hpwl\n";
       out.impl << "hpwl " << h.back() << "\n";
@@ -144,6 +319,9 @@ int main(int argc, char **argv) {
   out.rule =
       "random circuit of the C01 domain with nets of degree 1..5 (repeated cells, pins outside the cell, fixed pins) "
       "+ parameters (effort 1..9 / non-default with reordering on alternate cases); placeDetailed with a callback; "
+      "with hook H3 a second, direct run of the body of DetailedPlacer::place gives DetailedPlacer::value(), Circuit::hpwl() of "
+      "the export and the orientation flag at every primitive move and callback (value_samples; value_samples_orient_kept must "
+      "all have value == hpwl; shift_samples must not increase value); "
       "non-trivial = the returned HPWL is strictly below the legalized one; distinct by input text";
   Runner rn(out);
   auto runText = [&](const std::string &id, const std::string &text) {
